@@ -75,7 +75,7 @@ package schema
 //@   at call srw.close: ghost closedSrc++
 //@   ensures[every_item_forwarded] @C08,C13 sent == got
 //@   ensures[writer_closed_once] @C08 closedSend == 1
-//@   ensures[source_closed_once] @C19 closedSrc == 1
+//@   ensures[source_closed_once] @C08,C19 closedSrc == 1
 //@   loop 1:
 //@     invariant[forwarded_so_far] sent == got && closedSend == 0 && closedSrc == 0
 
@@ -93,7 +93,7 @@ package schema
 //@   at call csr.close: ghost closedSrc++
 //@   ensures[every_item_forwarded] @C08,C13 sent == got
 //@   ensures[writer_closed_once] @C08 closedSend == 1
-//@   ensures[source_closed_once] @C19 closedSrc == 1
+//@   ensures[source_closed_once] @C08,C19 closedSrc == 1
 //@   loop 1:
 //@     modifies csr.parent.subStreamList[csr.index], region("F|schema.cpStreamElement[T]"), region("ONCE"), fresh()
 //@     invariant[list] listOK()
